@@ -361,6 +361,12 @@ impl UserRx {
         }
     }
 
+    /// Update the largest payload we expect to receive (the current MSS). Used by flush() to
+    /// decide if the reader needs to wake the dispatcher up when it frees space.
+    pub fn set_max_incoming_payload(&mut self, max_incoming_payload: NonZeroUsize) {
+        self.max_incoming_payload = max_incoming_payload;
+    }
+
     /// Inform the read half that the socket is closed - there will be no more data.
     pub fn mark_vsock_closed(&self) {
         let mut g = self.shared.locked.lock();
